@@ -13,7 +13,7 @@ pub static DEF: PropertyDef = PropertyDef {
     level: "fault_enumeration",
     rule: "generated programs with pure value/text functions (multi-line output, nested calls, temps, no RANDOM, no global writes) x seeded host history (incl. flows, \
            saves, observers); an evaluate_function call (each function of the program, int/float/bool arguments) is injected at EVERY distinct boundary; it must succeed, \
-           a second identical call must return the same value and text, pending text/tags/choices must be unchanged, and the run is compared in lockstep with the \
+           the value of a non-printing function must equal what the story itself prints for the same call in a copy of the state (probe knot, int / bool / void results), a second identical call must return the same value and text, pending text/tags/choices must be unchanged, and the run is compared in lockstep with the \
            uninjected history (everything except visit/turn counts of the evaluated function itself and functions it calls), plus peer events. \
            Non-trivial = the evaluation succeeded at a boundary whose state differs from the initial one or has pending text/choices, and at least one later op was compared.",
     assumptions: &["functions are pure by construction of the generator (no assignment to globals, no RANDOM, no externals inside functions)"],
@@ -22,7 +22,7 @@ pub static DEF: PropertyDef = PropertyDef {
     exhaustive_note: "every function of the program x every distinct boundary of each sampled history",
     generate,
     execute,
-    must_hit: &["fault.host_eval.fired", "fault.host_eval.with_pending_choices", "fault.host_eval.with_pending_text", "fault.host_eval.text_function", "fault.host_eval.inside_forked_thread", "fault.host_eval.inside_tunnel", "fault.host_eval.fallback_choice_pending_mid_text"],
+    must_hit: &["fault.host_eval.fired", "fault.host_eval.with_pending_choices", "fault.host_eval.with_pending_text", "fault.host_eval.text_function", "fault.host_eval.inside_forked_thread", "fault.host_eval.inside_tunnel", "fault.host_eval.fallback_choice_pending_mid_text", "fault.host_eval.value_compared_with_ink"],
     timeout_s: 30,
     hang_class: None,
     sub_builds: &[],
@@ -72,6 +72,29 @@ fn generate(_corpus: &Corpus, tier: Tier, run: u64, rng: &mut Rng) -> Option<Cas
                 .collect()
         })
         .collect();
+    // a probe knot per function: the story itself calls the function with the arguments the host will pass,
+    // so that what evaluate_function returns can be compared with what Ink computes (unreachable otherwise)
+    let mut prog = prog;
+    if let Some(src) = prog.source.clone() {
+        let mut ext = src.clone();
+        for (fi, f) in gen_functions(&prog).iter().enumerate() {
+            let args: Vec<String> = argsets[fi % argsets.len()][..f.1.min(3)]
+                .iter()
+                .map(|a| match a {
+                    Val::Bool(b) => b.to_string(),
+                    Val::Int(n) => n.to_string(),
+                    Val::Float(x) => format!("{x:?}"),
+                    Val::Str(t) => format!("\"{t}\""),
+                })
+                .collect();
+            ext.push_str(&format!("\n=== zzprobe_{} ===\n[{{{}({})}}]\n-> DONE\n", f.0, f.0, args.join(", ")));
+        }
+        if let Ok(json) = crate::corpus::compile_source(&ext, None)
+            && let Some(p2) = Program::from_json("generated", &prog.name, Some(ext), json)
+        {
+            prog = p2;
+        }
+    }
     Some(Case {
         prop: "C16".into(),
         run,
@@ -102,6 +125,31 @@ pub fn gen_functions(prog: &Program) -> Vec<(String, usize)> {
         }
     }
     v
+}
+
+/// What the story prints for `[{f(args)}]` (its probe knot) in a copy of the saved state: the value between the brackets.
+fn ink_value(case: &Case, save: &str, f: &str) -> Option<String> {
+    if !case.program.info.knots.iter().any(|k| k == &format!("zzprobe_{f}")) {
+        return None;
+    }
+    let cfg = HostCfg { handler: false, observers: vec![], ..case.host.clone() };
+    let mut z = Host::new(&case.program, &cfg).ok()?;
+    if !matches!(z.load_text(save), Res::Ok(_)) {
+        return None;
+    }
+    if !matches!(z.apply(&Op::Jump { path: format!("zzprobe_{f}"), reset: true, args: vec![] }), Res::Ok(_)) {
+        return None;
+    }
+    if !matches!(z.apply(&Op::Continue), Res::Ok(_)) {
+        return None;
+    }
+    let log = z.log.borrow();
+    let text = log.iter().rev().find_map(|e| match e {
+        crate::host::Ev::Line { text, .. } => Some(text.clone()),
+        _ => None,
+    })?;
+    let t = text.trim();
+    Some(t.strip_prefix('[')?.strip_suffix(']')?.to_string())
 }
 
 fn execute(case: &Case) -> CaseResult {
@@ -143,9 +191,14 @@ fn execute(case: &Case) -> CaseResult {
         .collect();
     // call-stack shape at every boundary (threads alive, inside a tunnel), from the save text
     let mut shapes: std::collections::BTreeMap<usize, (bool, bool, bool)> = std::collections::BTreeMap::new();
+    // the state at (up to four) boundaries, as save text: a copy of the story to ask Ink itself for a function's value
+    let mut saves_at: std::collections::BTreeMap<usize, String> = std::collections::BTreeMap::new();
     if let Ok(mut probe) = Host::new(&case.program, &case.host) {
         for p in 0..=r.ops.len() {
             if let Ok(s) = probe.save_text() {
+                if saves_at.len() < 4 && r.distinct.contains(&p) {
+                    saves_at.insert(p, s.clone());
+                }
                 let j: serde_json::Value = serde_json::from_str(&s).unwrap_or_default();
                 let flow = j["currentFlowName"].as_str().unwrap_or("DEFAULT_FLOW").to_string();
                 let threads = j["flows"][&flow]["callstack"]["threads"].as_array().cloned().unwrap_or_default();
@@ -216,6 +269,32 @@ fn execute(case: &Case) -> CaseResult {
                 if let (Some(Res::Ok(a)), Some(Res::Ok(b))) = (out.results.first(), out.results.get(1)) {
                     if a != b {
                         res.fail(Violation::new("C16", "eval-not-repeatable", &f.0, "second evaluation differs").with(format!("boundary {p}"), a.clone(), b.clone()));
+                    }
+                    // the value: what Ink computes for the same call in a copy of this state
+                    if !prints[fi]
+                        && let Some(save) = saves_at.get(&p)
+                        && let Some(got) = a.strip_prefix("ret=").and_then(|x| x.split(" text=").next())
+                        && let Some(want) = ink_value(case, save, &f.0)
+                    {
+                        let comparable = match got.split_once(':') {
+                            Some(("i", v)) | Some(("b", v)) => Some(v.to_string()),
+                            None if got == "none" => Some(String::new()),
+                            _ => None, // floats and strings print in Ink's own formats
+                        };
+                        // a callee that prints puts its text between the brackets: only a bare value is comparable
+                        let bare = want.is_empty() || want == "true" || want == "false" || want.parse::<i64>().is_ok();
+                        if let Some(g) = comparable
+                            && bare
+                        {
+                            res.stats.inc("fault.host_eval.value_compared_with_ink");
+                            if g != want {
+                                res.fail(Violation::new("C16", "eval-wrong-value", "evaluate_function", "the returned value differs from what the story computes for the same call").with(
+                                    format!("Eval({}) at boundary {p}", f.0),
+                                    want,
+                                    got.to_string(),
+                                ));
+                            }
+                        }
                     }
                     if prints[fi] && a.contains("text=\"\"") {
                         res.fail(Violation::new("C16", "eval-text-lost", &f.0, "text function returned no text").with(format!("boundary {p}"), "text".into(), a.clone()));
